@@ -1609,4 +1609,50 @@ theorem parse_flatten (t : Tmpl) (hwf : ∀ s ∈ t, s.wf = true) : parse (flatt
     rw [parseGo_seg s (hwf s (by simp)), ih (fun x hx => hwf x (by simp [hx]))]
     rfl
 
+/-! ### where a warning can come from -/
+
+/-- the three sources of a warning: the raw scan for `{{name}}`, the no-such-filter notice of sub-pass 1, a
+    `{{name}}` left in the output by sub-pass 4 -/
+theorem renderTok_warns_split (cfg : Cfg) (reg : Reg) (ctx : Ctx) (fuel : Nat) (ts out : List Tok) (w : List Str)
+    (h : renderTok cfg false reg ctx (fuel + 1) ts = .ok (out, w)) (n : Str) (hn : n ∈ w) :
+    (Tok.var n ∈ ts ∧ isBound ctx n = false) ∨
+    (∃ v, isBound ctx v = true ∧ isWordStr cfg n = true ∧ cfg.filters.contains n = false) ∨
+    Tok.var n ∈ out := by
+  simp only [renderTok, Bool.false_and, Bool.false_eq_true, ↓reduceIte] at h
+  split at h
+  · cases h
+  · split at h
+    · cases h
+    · simp only [Except.ok.injEq, Prod.mk.injEq] at h
+      rw [← h.2] at hn
+      rcases List.mem_append.mp hn with hn | hn
+      · rcases List.mem_append.mp hn with hn | hn
+        · left
+          have := List.mem_filter.mp hn
+          exact ⟨mem_varNames.mp this.1, by simpa using this.2⟩
+        · right; left
+          obtain ⟨t, _, hnt⟩ := List.mem_flatMap.mp hn
+          cases t with
+          | pipe v a =>
+            simp only [warnA] at hnt
+            split at hnt
+            · rename_i hc
+              simp at hnt; subst hnt
+              simp only [Bool.and_eq_true, Bool.not_eq_true'] at hc
+              exact ⟨v, hc.1.2, hc.1.1, hc.2⟩
+            · simp at hnt
+          | _ => simp [warnA] at hnt
+      · right; right
+        rw [← h.1]
+        obtain ⟨t, ht, hnt⟩ := List.mem_flatMap.mp hn
+        cases t with
+        | var m =>
+          simp only [warnD] at hnt
+          split at hnt
+          · simp at hnt
+          · rename_i hb
+            simp at hnt; subst hnt
+            exact List.mem_flatMap.mpr ⟨_, ht, by simp [tokD, hb]⟩
+        | _ => simp [warnD] at hnt
+
 end Operon.Tmpl
